@@ -39,3 +39,51 @@ Theorem C15_refreshed_route_answers_are_correct : forall all d0 ops1 d2 h2 s p a
             route_response_correct d2 s p acc egr a.
 Proof. exact refreshed_route_answers_are_correct. Qed.
 Print Assumptions C15_refreshed_route_answers_are_correct.
+
+(* ---- the refresh glue IS the code (tools/gen_handler_guards.py regenerates gen/HandlerGuards.v from the current
+   transit_routing_http_server.cpp and transit_data.cpp on every run; Proofs/HandlerGuardsTie.v ties the model to it): the order
+   of the updates a refresh makes, and which of them empty the per-scenario connection cache.  Swapped blocks in the handler,
+   "all" routed through loadAllData, a dropped `scenarioConnectionCache->clear()` stop this file from compiling ---- *)
+From Coq Require String.
+From TrV Require Proofs.HandlerGuardsTie gen.HandlerGuards.
+Module HG := TrV.gen.HandlerGuards.
+Module HT := TrV.Proofs.HandlerGuardsTie.
+Section HandlerGlueC15.
+Import String.   (* local to this section: the string literals below *)
+
+(* names=all makes every update in the order of Loader2.handler_order (the order of the blocks in the source), one name makes its
+   own; the calls the source's loop makes for any list of names are the updates of Loader2.update; for "all" they leave, from any
+   state, the memory and status of a restart *)
+Theorem C15_refresh_order_is_code :
+  HT.calls_of "all"%string = map HT.kind_method handler_order /\
+  (forall k, HT.calls_of (HT.kind_name k) = [HT.kind_method k]) /\
+  (forall f names s, update f (map HT.cname_of names) s = fold_left (HT.apply_call f) (HT.u_calls (HT.update_code names)) s) /\
+  (forall f s, snd (load_steps f) = false ->
+     sv_mem (fold_left (HT.apply_call f) (HT.u_calls (HT.update_code ["all"%string])) s) = fst (load_all f) /\
+     status_of (fold_left (HT.apply_call f) (HT.u_calls (HT.update_code ["all"%string])) s) = snd (load_all f)).
+Proof. exact (conj HT.update_calls_all (conj HT.update_calls_kind (conj HT.update_is_code HT.refresh_all_is_restart_code))). Qed.
+Print Assumptions C15_refresh_order_is_code.
+
+(* TransitData::updateScenarios and updateSchedules - and no other update - empty the per-scenario connection cache before they
+   fetch; so the refresh of Server.v (ORefresh: new data AND an emptied cache) is what a request naming "all", "scenarios" or
+   "schedules" does, while a request naming only other collections leaves the cached connection sets in place; every collection
+   the model reloads is emptied before it is read again, updateSchedules also empties the connections and rebuilds the sorted
+   lists *)
+Theorem C15_refresh_clears_cache_is_code :
+  (forall k, HT.method_clears_cache (HT.kind_method k) = match k with KScenarios | KSchedules => true | _ => false end) /\
+  (forall names sv d',
+     (exists n, In n names /\ (n = "all" \/ n = "scenarios" \/ n = "schedules")%string) ->
+     snd (Server.step sv (Server.ORefresh d')) = HT.refresh_code (HT.u_calls (HT.update_code names)) sv d') /\
+  (forall names sv d',
+     (forall n, In n names -> n <> "all" /\ n <> "scenarios" /\ n <> "schedules")%string ->
+     HT.refresh_code (HT.u_calls (HT.update_code names)) sv d' = {| Server.sv_data := d'; Server.sv_cache := Server.sv_cache sv |}) /\
+  (forall k, In k [KAgencies; KServices; KNodes; KLines; KPaths; KScenarios; KSchedules] ->
+     HT.method_replaces (HT.kind_method k) = true) /\
+  HG.gen_update_fns =
+  map HT.update_fn_expected [KAgencies; KDataSources; KLines; KNodes; KOdTrips; KPaths; KPersons; KScenarios; KSchedules; KServices].
+Proof.
+  exact (conj HT.clears_cache_code (conj HT.refresh_clears_cache_code (conj HT.refresh_keeps_cache_code
+        (conj HT.reload_replaces_code HT.update_fns_code)))).
+Qed.
+Print Assumptions C15_refresh_clears_cache_is_code.
+End HandlerGlueC15.
